@@ -331,3 +331,14 @@ func snapshot(root string, sessionStart int64) (string, error) {
 	sort.Strings(lines)
 	return strings.Join(lines, ","), err
 }
+
+// plainFiles lists the regular files of the tree (no links), for requests that only need "some file".
+func (t *tree) plainFiles() []string {
+	var out []string
+	for _, n := range t.nodes {
+		if n.kind == 'f' {
+			out = append(out, n.path)
+		}
+	}
+	return out
+}
